@@ -27,6 +27,8 @@ func parseFlow(f []string) (flowSpec, error) {
 			fs.nodes[i+1].gated = g
 		}
 		return fs, nil
+	case f[0] == "multi" && len(f) == 4: // multi <c> <k sinks on the pass node's out-port> <src out-port linked twice: 0|1>
+		return multiFlow(atoi(f[1]), atoi(f[2]), f[3] == "1"), nil
 	case f[0] == "split" && len(f) == 4:
 		return splitFlow(f[1] == "1", f[2] == "1", atoi(f[3])), nil
 	case f[0] == "fan" && len(f) == 2:
